@@ -7,7 +7,6 @@ equal to spec) as the violation-search oracle."""
 import os
 import re
 import common
-from common import HARNESS_BIN, MODEL_BIN
 
 SMALL = [3, 5, 7, 11, 13, 17, 257]
 OPS = ["add", "mul", "sub", "div", "idiv", "mod", "pow", "neg", "compl", "shl", "shr", "bor", "band",
@@ -105,19 +104,19 @@ def fmt(c):
 
 
 def run(ctx, proofs):
-    common.build_harness()
-    common.build_model_driver()
+    HARNESS_BIN = common.build_harness("field")
+    MODEL_BIN = common.build_model("field")
     primes = primes_from_source()
     disagreements = []
     failing = []
     evaluations = 0
     # (a) exhaustive small fields: mirror vs implementation vs spec
     sweep_args = [str(p) for p in SMALL]
-    rc, impl, err = common.sh([HARNESS_BIN, "field-sweep"] + sweep_args, timeout=600)
+    rc, impl, err = common.sh([HARNESS_BIN, "sweep"] + sweep_args, timeout=600)
     if rc != 0:
         raise common.BuildError("harness field-sweep failed", err[-2000:])
-    rc, model, err = common.sh([MODEL_BIN, "field-sweep"] + sweep_args, timeout=600)
-    rc2, spec, err2 = common.sh([MODEL_BIN, "fieldspec-sweep"] + sweep_args, timeout=600)
+    rc, model, err = common.sh([MODEL_BIN, "mirror-sweep"] + sweep_args, timeout=600)
+    rc2, spec, err2 = common.sh([MODEL_BIN, "spec-sweep"] + sweep_args, timeout=600)
     if rc != 0 or rc2 != 0:
         raise common.BuildError("model driver sweep failed", (err + err2)[-2000:])
     impl_l, model_l, spec_l = impl.splitlines(), model.splitlines(), spec.splitlines()
@@ -141,10 +140,10 @@ def run(ctx, proofs):
     cs = cases(ctx, primes)
     lines = [fmt(c) for c in cs]
     evaluations += len(lines)
-    impl_l = common.run_lines(HARNESS_BIN, ["field"], lines, shards=common.NPROC)
-    model_l = common.run_lines(MODEL_BIN, ["field"], lines, shards=common.NPROC)
+    impl_l = common.run_lines(HARNESS_BIN, [], lines, shards=common.NPROC)
+    model_l = common.run_lines(MODEL_BIN, ["mirror"], lines, shards=common.NPROC)
     canon_idx = [i for i, c in enumerate(cs) if c[1] < c[3] and c[2] < c[3] and c[0] != "div"]
-    spec_l = common.run_lines(MODEL_BIN, ["fieldspec"], [lines[i] for i in canon_idx], shards=common.NPROC)
+    spec_l = common.run_lines(MODEL_BIN, ["spec"], [lines[i] for i in canon_idx], shards=common.NPROC)
     spec_of = dict(zip(canon_idx, spec_l))
     kinds = {}
     for i, (c, li, lm) in enumerate(zip(cs, impl_l, model_l)):
@@ -201,13 +200,14 @@ def run(ctx, proofs):
 
 
 def replay(ctx, rep):
-    common.build_harness()
+    HARNESS_BIN = common.build_harness("field")
+    MODEL_BIN = common.build_model("field")
     line = rep.get("input")
     if not line:
         print("replay names a broken obligation, not an input:", rep.get("broken"))
         return 1
-    out = common.run_lines(HARNESS_BIN, ["field"], [line])
-    spec = common.run_lines(MODEL_BIN, ["fieldspec"], [line])
+    out = common.run_lines(HARNESS_BIN, [], [line])
+    spec = common.run_lines(MODEL_BIN, ["spec"], [line])
     print("implementation:", out[0])
     print("specification :", spec[0])
     return 0 if out[0] == spec[0] else 1
